@@ -92,6 +92,31 @@ Proof.
   destruct (blank_head (a :: bl) k' Hw ltac:(discriminate)) as [b [r [-> Hb]]]. cbn. auto.
 Qed.
 
+(* blank slots that may be the last of the text *)
+Lemma blank_head_e eof bl k : wfb eof bl = true -> bl <> [] -> exists b r, pr_blank bl k = b :: r /\ blank_start b = true.
+Proof.
+  intros Hw Hne. assert (Hw' : wf_blank_eof bl = true) by (destruct eof; cbn [wfb] in Hw; auto using wf_blank_eof_of).
+  destruct bl as [|a bl]; [contradiction|]. cbn [wf_blank_eof] in Hw'.
+  apply andb_prop in Hw'. destruct Hw' as [Hw' _]. apply andb_prop in Hw'. destruct Hw' as [Hw' _].
+  destruct a as [ws|body|body|body]; cbn [pr_blank pr_atom wf_atom] in *.
+  - apply andb_prop in Hw'. destruct Hw' as [Hn Hs]. destruct ws as [|w ws]; [discriminate|]. cbn [forallb] in Hs.
+    apply andb_prop in Hs. exists w, (ws ++ pr_blank bl k). split; [reflexivity|]. unfold blank_start. destruct Hs as [-> _]. reflexivity.
+  - eexists _, _. split; [reflexivity|]. reflexivity.
+  - eexists _, _. split; [reflexivity|]. reflexivity.
+  - eexists _, _. split; [reflexivity|]. reflexivity.
+Qed.
+
+Lemma blank_then_e (f : byte -> bool) eof bl k' :
+  wfb eof bl = true -> (forall b, blank_start b = true -> f b = true) -> (bl = [] -> hd_sat f k' = true) ->
+  hd_sat f (pr_blank bl k') = true.
+Proof.
+  intros Hw Hf Hk. destruct bl as [|a bl]; [now apply Hk|].
+  destruct (blank_head_e eof (a :: bl) k' Hw ltac:(discriminate)) as [b [r [-> Hb]]]. cbn. auto.
+Qed.
+
+Lemma wfb_false_of eof bl : wfb false bl = true -> wfb eof bl = true.
+Proof. destruct eof; cbn [wfb]; auto using wf_blank_eof_of. Qed.
+
 (* ---------- paths ---------- *)
 Definition pfollow (lf : nat) (k : list byte) : Prop :=
   hd_sat (fun b => negb (identch b)) k = true /\ is_perr (p_path_sep lf k).
@@ -106,6 +131,14 @@ Hypothesis Hlf : length whole < lf.
 Lemma oblank bl k : wf_blank bl = true -> nb k = true -> sfx (pr_blank bl k) whole ->
   exists o, opt (p_blank lf) (pr_blank bl k) = POk k o.
 Proof. intros Hw Hk S. apply rt_oblank; auto. eapply sfx_lt; eauto. Qed.
+
+Lemma oblank_e eof bl k : wfb eof bl = true -> (eof = true -> k = []) -> nb k = true -> sfx (pr_blank bl k) whole ->
+  exists o, opt (p_blank lf) (pr_blank bl k) = POk k o.
+Proof.
+  intros Hw He Hk S. destruct eof; cbn [wfb] in Hw.
+  - rewrite (He eq_refl) in *. apply rt_oblank_eof; auto. eapply sfx_lt; eauto.
+  - now apply oblank.
+Qed.
 
 Lemma mblank bl k : wf_blank bl = true -> negb (is_nil bl) = true -> nb k = true -> sfx (pr_blank bl k) whole ->
   p_blank lf (pr_blank bl k) = POk k tt.
